@@ -162,8 +162,7 @@ class LMNN(MahalanobisMixin, TransformerMixin):
     reg = self.regularization
     learn_rate = self.learn_rate
 
-    X, y = self._prepare_inputs(X, y, dtype=float,
-                                ensure_min_samples=2)
+    X, y = self._prepare_inputs(X, y, ensure_min_samples=2)
     num_pts, d = X.shape
     output_dim = _check_n_components(d, self.n_components)
     unique_labels, label_inds = np.unique(y, return_inverse=True)
